@@ -44,6 +44,16 @@ func repoDir() string {
 	return "/repo"
 }
 
+// outDir is where evidence and replays are written: /verif, or VERIF_OUT when the checks are
+// pointed at a scratch copy of the repository (seeded changes) and must not touch the
+// committed evidence.
+func outDir() string {
+	if d := os.Getenv("VERIF_OUT"); d != "" {
+		return d
+	}
+	return verifDir()
+}
+
 func verifDir() string {
 	if d := os.Getenv("VERIF_DIR"); d != "" {
 		return d
